@@ -21,6 +21,7 @@ def opOf (j : Json) : Op :=
   | "send" => .send ⟨optNat j "pending", faultOf (jstr j "fault")⟩
   | "monitor" => .monitor (jnat j "c")
   | "cancel" => .cancel
+  | "monitor-fails" => .monitorFailed
   | _ => .restart
 
 def evJson : Ev → Json
@@ -30,6 +31,7 @@ def evJson : Ev → Json
   | .mon c => mkObj [("t", "mon"), ("c", c)]
   | .restarted => mkObj [("t", "restarted")]
   | .cancelled => mkObj [("t", "cancelled")]
+  | .monFailed => mkObj [("t", "mon-failed")]
 
 /-- implementation event; anything unexpected maps to an event the spec rejects -/
 def evOf (j : Json) : Option Ev :=
@@ -39,11 +41,11 @@ def evOf (j : Json) : Option Ev :=
   | "mon" => some (.mon (jnat j "c"))
   | "restarted" => some .restarted
   | "cancelled" => some .cancelled
+  | "mon-failed" => some .monFailed
   | _ => none
 
 def handle (inp impl : Json) : CaseResult :=
-  -- a monitor round whose confirmed-nonce query failed is no operation of the allocator at all
-  let ops := (((jarr inp "ops").toList.filter (fun j => jstr j "t" != "monitor-fails")).map opOf)
+  let ops := ((jarr inp "ops").map opOf).toList
   let m := run init ops
   let evs := (jarr impl "events").toList.map evOf
   let wellFormed := evs.all Option.isSome
